@@ -1,5 +1,6 @@
 import AbraModel.Drv.Util
 import AbraModel.Drv.I64
+import AbraModel.Drv.Arena
 /- Line-protocol model driver: one request per input line (`<component> <args…>`), one answer per line. -/
 open Abra.Drv
 
@@ -7,6 +8,7 @@ def dispatch (line : String) : String :=
   match words line with
   | [] => "bad-op"
   | "i64" :: rest => handleI64 rest
+  | "arena" :: rest => handleArena rest
   | _ => "bad-op"
 
 partial def loop (h : IO.FS.Stream) (out : IO.FS.Stream) : IO Unit := do
